@@ -553,12 +553,25 @@ def c16(ctx):
 def adapters(ctx, which):
     props.check_props_file(ctx, f"Props/{which}.v")
     cases = special_mode_cases(ctx, "c12", ["-n", "3600" if ctx.quick() else "120000", "-hostile", "0.2"])
+    # independent oracle: what the extracted model says ToSQL returns for the same value, options and named arguments
+    with_dump = [c for c in cases if c.get("dump")]
+    correspondence(ctx, with_dump, label="ToSQL of the adapter cases")
     cube = Counter()
     ev = 0
     distinct = set()
     errkinds = Counter()
     for c in cases:
         failing = bool(c.get("render_err"))
+        m = (c.get("renders") or [{}])[0].get("model", "")
+        model_failing = m in ("MISSING", "PANIC") or (m.startswith("OK ") and m.split(" ")[3] != "s")
+        if which == "C12" and model_failing and not c.get("panic") and (c["ncalls"] != 0 or not failing):
+            ctx.violation("rendering reports an error according to the model, yet the executor was called or no error came back",
+                          {"adapter": c["adapter"], "method": c["method"], "construction": c["path"], "named_args": c["named"],
+                           "validation": c["validate"], "prog": c["prog"][:1500], "model_ToSQL": corr.decode_obs(m),
+                           "implementation_ToSQL_error": c.get("render_err"), "executor_calls": c["ncalls"],
+                           "sql_handed_to_executor_or_rendered": bytes.fromhex(c["sql"]).decode("utf8", "replace")[:600]})
+            ev += 1
+            continue
         if (which == "C12") != failing and not c.get("panic"):
             continue
         ev += 1
